@@ -19,7 +19,9 @@ import (
 	"math"
 	"os"
 	"path/filepath"
+	"runtime/debug"
 	"strings"
+	"syscall"
 	"time"
 
 	"gonum.org/v1/gonum/mat"
@@ -34,19 +36,22 @@ func init() {
 	for _, p := range []struct{ name, prop string }{{"C06", "C06"}, {"C05b", "C05"}, {"C20", "C20"}} {
 		p := p
 		ck := &simrt.Check{Name: p.name, Property: p.prop, Body: func(env *simrt.Env) { wcBody(env, p.name) }, Classify: classify, Real: real, Stub: stub}
-		if p.name == "C06" {
+		if p.name != "C05b" {
 			ck.Judge = wcJudge
-			ck.Stub = append(append([]string{}, stub...), "full disk for one class of run-log side files (faulted runs: the handle is /dev/full, every write fails with ENOSPC)")
+			ck.Stub = append(append([]string{}, stub...), "full disk for one class of run-log side files (faulted runs: the handle is /dev/full, every write fails with ENOSPC)",
+				"failing creation of the experiment-state file (faulted runs: os.Create interposed)")
 		}
 		simrt.Register(ck)
 	}
 }
 
 // wcFailStop is the message of the core loop's deliberate panic when block processing returns an
-// error (data_source.go, CoreLoop): the documented fail-stop. In the C06 world it is reached only
+// error (data_source.go, CoreLoop): the documented fail-stop. In this world it is reached only
 // when the injected disk-full fault makes a write to the external-trigger or data-drop file fail
-// while a block is processed; such a run simply ends there (DESIGN §2.5). Any other panic, and this
-// one without that fault, is a violation as usual.
+// while a block is processed. The simulated process ends there, and what it left on disk is judged
+// (wcSource.RunDoneDeactivate, afterFailStop in wcBody). Any other panic, and this one without that
+// fault, is a violation as usual. wcJudge only sees panics of tasks other than the core loop (and
+// the fail-stop itself should the loop's last deferred call not be reached).
 const wcFailStop = "Panic to stop source when processSegments errors"
 
 func wcJudge(res *simrt.Result) *simrt.Violation {
@@ -99,7 +104,7 @@ func wcMakeProj(c, ver, nbases, nsamp int) *wcProjSet {
 type wcSession struct {
 	dir      string
 	pattern  string
-	types    [3]bool          // ljh22, ljh3, off as reported at START
+	types    [3]bool            // ljh22, ljh3, off as reported at START
 	expected [][3][]*DataRecord // per channel, per type: records that must be in the file
 	extTrig  []int64
 	drops    [][2]int64
@@ -114,8 +119,19 @@ type wcSession struct {
 	offProj [][]*wcProjSet
 	// gone: the operator deleted or renamed the (stopped) session's directory
 	gone bool
+	// life: the run of the source (1, 2, ...) in which the session started
+	life int
+	// I/O faults: handles substituted / creation failed before the session's START request
+	fullAtStart        int
+	createFailedBefore bool
+	// side files whose content is not judged because the injected I/O fault touched them in this session
+	skipES, skipET, skipDD bool
+	// afterFailStop: the session ended by the core loop's fail-stop; optExt/optDrops are the events of the
+	// block(s) in whose processing the failure surfaced, in order: any whole-block prefix of them may be present
+	afterFailStop bool
+	optExt        [][]int64
+	optDrops      [][2]int64
 }
-
 
 type wcLabel struct {
 	label  string
@@ -145,6 +161,147 @@ func stateString(s *WritingState) string {
 	return fmt.Sprintf("{active=%v paused=%v ljh22=%v ljh3=%v off=%v pattern=%q}", s.Active, s.Paused, s.WriteLJH22, s.WriteLJH3, s.WriteOFF, filepath.Base(s.FilenamePattern))
 }
 
+// wcSource is the scripted source of this world. It differs from ScriptedSource in one method: the
+// core loop's last deferred call, RunDoneDeactivate, notices the loop's deliberate fail-stop panic
+// ("Panic to stop source when processSegments errors") and lets the simulated process end there
+// WITHOUT ending the simulation, so that what the dying process left on disk can be judged (the
+// deferred clean-up of CoreLoop has run by then, exactly as it does before a real process dies).
+// Every other panic of the core loop is reported as the violation it always was.
+type wcSource struct {
+	ScriptedSource
+	failStops  int    // deliberate fail-stop panics of the core loop
+	failValue  string // the panic value of the last one
+	failStack  string
+	deactivate int // calls of RunDoneDeactivate (ends of a run)
+	run        *wcRun
+}
+
+// wcRun counts per run of the source: a producer that is still finishing its last step when the next
+// run starts counts into its own run's object, never into the new one's.
+type wcRun struct {
+	delivered int // blocks handed over to the core loop in this run
+}
+
+// StartRun is part of DataSource: ScriptedSource's producer, bound to the channels and the counter of
+// this run.
+func (s *wcSource) StartRun() error {
+	s.starts++
+	run := new(wcRun)
+	s.run = run
+	s.delivered = 0
+	if s.geomRows > 0 && s.subframeDivisions > 1 {
+		for i := range s.subframeOffsets {
+			s.subframeOffsets[i] = (i % s.geomRows) % s.subframeDivisions
+		}
+	}
+	abort, next, feed := s.abortSelf, s.nextBlock, s.feed
+	go func() {
+		for {
+			select {
+			case <-abort:
+				close(next)
+				return
+			case b, ok := <-feed:
+				if !ok || b == nil {
+					close(next)
+					return
+				}
+				select {
+				case next <- b:
+					run.delivered++
+					if s.run == run {
+						s.delivered = run.delivered
+					}
+					if b.err != nil {
+						return
+					}
+				case <-abort:
+					close(next)
+					return
+				}
+			}
+		}
+	}()
+	return nil
+}
+
+// RunDoneDeactivate is part of DataSource; CoreLoop defers it first, so it runs last.
+func (s *wcSource) RunDoneDeactivate() {
+	r := recover()
+	s.deactivate++
+	if r == nil {
+		s.ScriptedSource.RunDoneDeactivate()
+		return
+	}
+	var val string
+	switch v := r.(type) {
+	case string:
+		val = v
+	case error:
+		val = v.Error()
+	default:
+		// not a panic of the program (the simulator's own unwinding): pass it on untouched
+		s.ScriptedSource.RunDoneDeactivate()
+		panic(r)
+	}
+	stack := string(debug.Stack())
+	s.ScriptedSource.RunDoneDeactivate()
+	if strings.Contains(val, wcFailStop) {
+		s.failStops++
+		s.failValue, s.failStack = val, stack
+		return
+	}
+	wcReportPanic(val, stack)
+}
+
+// wcReportPanic reports a panic of the core loop with the signature the default judge gives it.
+func wcReportPanic(val, stack string) {
+	frame := wcTopFrame(stack)
+	if frame == "" {
+		frame = val
+		if i := strings.IndexByte(frame, '\n'); i >= 0 {
+			frame = frame[:i]
+		}
+		if len(frame) > 120 {
+			frame = frame[:120]
+		}
+	}
+	st := strings.Split(stack, "\n")
+	if len(st) > 40 {
+		st = st[:40]
+	}
+	simrt.Fail("no-panic", "panic:"+frame, "%s\n%s", val, strings.Join(st, "\n"))
+}
+
+// wcTopFrame: the innermost function of the program under test below the panic (as simrt does it).
+func wcTopFrame(stack string) string {
+	seenPanic := false
+	for _, l := range strings.Split(stack, "\n") {
+		if strings.HasPrefix(l, "panic(") {
+			seenPanic = true
+			continue
+		}
+		if !seenPanic {
+			continue
+		}
+		if strings.HasPrefix(l, simrt.ModulePrefix) && !strings.Contains(l, "zz_verif") && !strings.Contains(l, "wcSource") {
+			if j := strings.LastIndex(l, "("); j > 0 {
+				l = l[:j]
+			}
+			return strings.TrimPrefix(l, simrt.ModulePrefix)
+		}
+	}
+	return ""
+}
+
+// wcBlockEv: what one block carried for the run-log side files.
+type wcBlockEv struct {
+	idx   int // index of the block within the current run of the source
+	ext   []int64
+	first int64
+	drop  int
+}
+
 func wcBody(env *simrt.Env, check string) {
 	rows := 1 + simrt.Draw(3)
 	cols := 1 + simrt.Draw(2)
@@ -153,6 +310,15 @@ func wcBody(env *simrt.Env, check string) {
 	npre := 3 + simrt.Draw(nsamp-4)
 	rate := 10000.0
 	w := newPipeWorld(env, nchan, npre, nsamp, rate)
+	// this world's source: a ScriptedSource whose end of run can be observed (see wcSource)
+	src := new(wcSource)
+	src.name = "Scripted"
+	src.nchan = nchan
+	src.sampleRate = rate
+	src.samplePeriod = time.Duration(roundint(1e9 / rate))
+	src.feed = make(chan *dataBlock)
+	w.ss = &src.ScriptedSource
+	w.ss.heartbeats = w.sc.heartbeats
 	resetViper(env.Dir)
 	w.ss.geomRows = rows
 	w.ss.subframeDivisions = []int{1, rows, 64}[simrt.Draw(3)]
@@ -161,7 +327,7 @@ func wcBody(env *simrt.Env, check string) {
 	}
 	w.F0 = FrameIndex([]int64{0, 1000, 1 << 35}[simrt.Draw(3)])
 	w.T0 = time.Now()
-	total := 40 * 4 * nsamp
+	total := 60 * 4 * nsamp
 	w.stream = make([][]RawType, nchan)
 	for c := 0; c < nchan; c++ {
 		s := make([]RawType, total)
@@ -170,22 +336,7 @@ func wcBody(env *simrt.Env, check string) {
 		}
 		w.stream[c] = s
 	}
-	if err := w.startScripted(); err != nil {
-		simrt.Fail("harness.start", "harness:start", "Start failed: %v", err)
-	}
-	// auto triggers on every channel: a record every 1..2 record lengths
-	{
-		all := make([]int, nchan)
-		for i := range all {
-			all[i] = i
-		}
-		ts := TriggerState{AutoTrigger: true, AutoDelay: time.Duration(float64(nsamp+simrt.Draw(nsamp)) / rate * float64(time.Second)), EdgeLevel: 100, EdgeRising: true}
-		var ok bool
-		if err := w.sc.ConfigureTriggers(&FullTriggerState{ChannelIndices: all, TriggerState: ts}, &ok); err != nil {
-			simrt.Fail("harness.configure", "harness:configure", "%v", err)
-		}
-	}
-	// projectors on a drawn subset of channels
+
 	hasProj := make([]bool, nchan)
 	projNow := make([]*wcProjSet, nchan) // the matrices in force per channel (nil: none)
 	projVer := 0
@@ -197,30 +348,97 @@ func wcBody(env *simrt.Env, check string) {
 			BasisBase64: base64.StdEncoding.EncodeToString(bb), ModelDescription: fmt.Sprintf("verif v%d", ps.ver)}, &ok)
 	}
 	nbases := 1 + simrt.Draw(3)
-	for c := 0; c < nchan; c++ {
-		if simrt.Draw(2) == 0 {
-			continue
+	autoDelay := time.Duration(float64(nsamp+simrt.Draw(nsamp)) / rate * float64(time.Second))
+
+	// startSource does for this world's source what SourceControl.Start does for the built-in ones (the
+	// switch there only knows the built-in names), then configures what a restarted source forgets:
+	// auto triggers on every channel (a record every 1..2 record lengths) and projectors on a drawn subset.
+	lives := 0     // runs of the source started so far
+	lifeFed0 := 0  // blocks fed before the current run of the source started
+	alive := false // the source runs
+	startSource := func() {
+		s := w.sc
+		s.ActiveSource = DataSource(src)
+		s.status.SourceName = "Scripted"
+		s.status.Running = true
+		if err := Start(s.ActiveSource, s.queuedRequests, s.status.Npresamp, s.status.Nsamples); err != nil {
+			simrt.Fail("harness.start", "harness:start", "Start (run %d of the source) failed: %v", lives+1, err)
 		}
-		ps := wcMakeProj(c, 0, nbases, nsamp)
-		if err := configure(c, ps); err != nil {
-			simrt.Fail("harness.projectors", "harness:projectors", "%v", err)
+		s.isSourceActive = true
+		s.status.SamplePeriod = s.ActiveSource.SamplePeriod()
+		s.status.Nchannels = s.ActiveSource.Nchan()
+		s.status.ChanGroups = s.ActiveSource.ChanGroups()
+		s.broadcastStatus()
+		s.broadcastTriggerState()
+		s.broadcastGroupTriggerState()
+		s.broadcastChannelNames()
+		lives++
+		lifeFed0 = w.fed
+		alive = true
+		all := make([]int, nchan)
+		for i := range all {
+			all[i] = i
 		}
-		hasProj[c] = true
-		projNow[c] = ps
+		ts := TriggerState{AutoTrigger: true, AutoDelay: autoDelay, EdgeLevel: 100, EdgeRising: true}
+		var ok bool
+		if err := w.sc.ConfigureTriggers(&FullTriggerState{ChannelIndices: all, TriggerState: ts}, &ok); err != nil {
+			simrt.Fail("harness.configure", "harness:configure", "%v", err)
+		}
+		for c := 0; c < nchan; c++ {
+			hasProj[c], projNow[c] = false, nil
+			if simrt.Draw(2) == 0 {
+				continue
+			}
+			ver := 0
+			if lives > 1 {
+				projVer++
+				ver = projVer
+			}
+			ps := wcMakeProj(c, ver, nbases, nsamp)
+			if err := configure(c, ps); err != nil {
+				simrt.Fail("harness.projectors", "harness:projectors", "%v", err)
+			}
+			hasProj[c] = true
+			projNow[c] = ps
+		}
 	}
-	// disk-full fault (C06, faulted runs): one class of run-log side files gets a handle whose every
-	// write fails. Record files are never affected.
+	startSource()
+
+	// I/O faults (C06 and C20, faulted runs). Record files are never affected.
+	//  * full disk for one class of run-log side files: the handle is on /dev/full, every write fails;
+	//  * the creation of the experiment-state file fails once (EIO, ENOSPC, EMFILE, EACCES, or ENOENT as
+	//    when the run directory vanished between two steps of START).
 	var fullFS *simrt.FaultFS
-	if env.Faulted() && check == "C06" && simrt.Chance(1, 2) {
-		fullFS = simrt.NewFaultFS(env.Dir)
-		class := []string{"experiment_state", "external_trigger", "data_drop"}[simrt.DrawFault(3)]
-		fullFS.FullMatch = []string{class}
-		fullFS.FullFrom = simrt.DrawFault(3)
-		fullFS.FullCount = simrt.DrawFault(3)
-		simrt.SetFS(fullFS)
-		env.Op("fault plan: the disk is full for the %s file from its creation #%d on (%d creations, 0 = all)", class, fullFS.FullFrom, fullFS.FullCount)
+	faultClass := ""
+	if env.Faulted() && check != "C05b" {
+		switch simrt.DrawFault(4) {
+		case 0:
+		case 1, 2:
+			fullFS = simrt.NewFaultFS(env.Dir)
+			faultClass = []string{"experiment_state", "external_trigger", "data_drop"}[simrt.DrawFault(3)]
+			fullFS.FullMatch = []string{faultClass}
+			fullFS.FullFrom = simrt.DrawFault(3)
+			fullFS.FullCount = simrt.DrawFault(3)
+			simrt.SetFS(fullFS)
+			env.Op("fault plan: the disk is full for the %s file from its creation #%d on (%d creations, 0 = all)", faultClass, fullFS.FullFrom, fullFS.FullCount)
+		default:
+			fullFS = simrt.NewFaultFS(env.Dir)
+			fullFS.FailMatch = "experiment_state"
+			fullFS.FailAt = simrt.DrawFault(3)
+			fullFS.FailErr = []error{syscall.EIO, syscall.ENOSPC, syscall.EMFILE, syscall.EACCES, syscall.ENOENT}[simrt.DrawFault(5)]
+			simrt.SetFS(fullFS)
+			env.Op("fault plan: creation #%d of an experiment-state file fails with %v", fullFS.FailAt, fullFS.FailErr)
+		}
 	}
-	diskFull := func() bool { return fullFS != nil && fullFS.FullFired > 0 }
+	// ioFault: some I/O fault has happened in this run (from then on an error reply does not mean "refused")
+	ioFault := func() bool { return fullFS != nil && (fullFS.FullFired > 0 || fullFS.Fired) }
+	fullFired := func() int {
+		if fullFS == nil {
+			return 0
+		}
+		return fullFS.FullFired
+	}
+	createFailed := func() bool { return fullFS != nil && fullFS.Fired }
 	env.Op("write-control world rows=%d cols=%d nsamp=%d npre=%d subdiv=%d projectors=%v", rows, cols, nsamp, npre, w.ss.subframeDivisions, hasProj)
 
 	basePath := filepath.Join(env.Dir, "data")
@@ -232,53 +450,41 @@ func wcBody(env *simrt.Env, check string) {
 	dirsSeen := map[string]bool{}
 	removed := 0 // run directories deleted or renamed by the operator
 	extNext := int64(100)
+	processDead := false    // the core loop ended by its fail-stop panic: the process is gone, nothing follows
+	var fullFiredBefore int // substituted handles / failed creation before the request in progress
+	var createFailedBefore bool
+	pausedAtSelfEnd := false // the last run of the source ended by itself while writing was paused
 
-	feed := func(nblocks int) {
-		for b := 0; b < nblocks; b++ {
-			n := nsamp + simrt.Draw(3*nsamp)
-			var ext []int64
-			if simrt.Draw(3) == 0 {
-				nExt := 1 + simrt.Draw(5)
-				if simrt.Draw(6) == 0 {
-					// a burst: more bytes than the side file's write buffer holds (hundreds of edges in one block)
-					nExt = 300 + simrt.Draw(900)
-					simrt.Hit("ext-trigger-burst")
-				}
-				for k := 0; k < nExt; k++ {
-					extNext += 1 + int64(simrt.Draw(50))
-					ext = append(ext, extNext)
-				}
-			}
-			drop := 0
-			if simrt.Draw(4) == 0 {
-				drop = 1 + simrt.Draw(20)
-			}
-			first := int64(w.F0) + int64(w.sent)
-			w.feedBlock(n, func(b *dataBlock) {
-				b.externalTriggerRowcounts = ext
-				for i := range b.segments {
-					b.segments[i].droppedFrames = drop
-				}
-			})
-			// events belong to the session that is active when the block is processed
-			w.sync()
-			if cur != nil && !cur.stopped {
-				cur.extTrig = append(cur.extTrig, ext...)
-				if drop > 0 {
-					cur.drops = append(cur.drops, [2]int64{first, int64(drop)})
-				}
-				if len(ext) > 0 {
-					simrt.Hit("ext-triggers-while-active")
-				}
-				if state.Paused && (len(ext) > 0 || drop > 0) {
-					simrt.Hit("events-while-paused")
-				}
-			} else if len(ext) > 0 || drop > 0 {
-				simrt.Hit("events-while-inactive")
+	// markFaults notes on the session which of its side files an I/O fault has touched (their content is
+	// then not judged; everything else stays strict)
+	markFaults := func(s *wcSession) {
+		if s == nil || fullFS == nil {
+			return
+		}
+		if fullFired() > s.fullAtStart {
+			switch faultClass {
+			case "experiment_state":
+				s.skipES = true
+			case "external_trigger":
+				s.skipET = true
+			case "data_drop":
+				s.skipDD = true
 			}
 		}
+		if createFailed() && !s.createFailedBefore {
+			s.skipES = true
+		}
+	}
+	endSession := func(s *wcSession, lo, hi time.Time) {
+		s.stopped = true
+		s.stopLo, s.stopHi = lo, hi
+		markFaults(s)
+		checkSessionFiles(w, check, s)
+	}
+
+	// attribute the records published since the last look to the files they must be in
+	attributeRecords := func() {
 		w.drain()
-		// attribute the records published since the last request
 		for ; recIdx < len(w.sk.recs); recIdx++ {
 			r := w.sk.recs[recIdx].rec
 			if cur == nil || cur.stopped || !state.Active || state.Paused {
@@ -297,13 +503,341 @@ func wcBody(env *simrt.Env, check string) {
 			}
 		}
 	}
+	// events belong to the session that is active when the block is processed
+	attributeEvents := func(ev wcBlockEv) {
+		if cur != nil && !cur.stopped {
+			cur.extTrig = append(cur.extTrig, ev.ext...)
+			if ev.drop > 0 {
+				cur.drops = append(cur.drops, [2]int64{ev.first, int64(ev.drop)})
+			}
+			if len(ev.ext) > 0 {
+				simrt.Hit("ext-triggers-while-active")
+			}
+			if state.Paused && (len(ev.ext) > 0 || ev.drop > 0) {
+				simrt.Hit("events-while-paused")
+			}
+		} else if len(ev.ext) > 0 || ev.drop > 0 {
+			simrt.Hit("events-while-inactive")
+		}
+	}
 
-	request := func() {
+	// feedRaw hands one block with drawn external triggers and drop count to the source; it returns as soon
+	// as the source has accepted the block (the core loop may not have seen it yet).
+	feedRaw := func(eventful bool) wcBlockEv {
+		n := nsamp + simrt.Draw(3*nsamp)
+		var ext []int64
+		pExt, pDrop := 3, 4
+		if eventful {
+			pExt, pDrop = 2, 2
+		}
+		if simrt.Draw(pExt) == 0 {
+			nExt := 1 + simrt.Draw(5)
+			if simrt.Draw(6) == 0 || (faultClass == "external_trigger" && simrt.Draw(3) == 0) {
+				// a burst: more bytes than the side file's write buffer holds (hundreds of edges in one block)
+				nExt = 300 + simrt.Draw(900)
+				simrt.Hit("ext-trigger-burst")
+				if faultClass == "external_trigger" && fullFired() > 0 && state.Active {
+					simrt.Hit("ext-trigger-burst-while-its-file-is-on-the-full-disk")
+				}
+			}
+			for k := 0; k < nExt; k++ {
+				extNext += 1 + int64(simrt.Draw(50))
+				ext = append(ext, extNext)
+			}
+		}
+		drop := 0
+		if simrt.Draw(pDrop) == 0 {
+			drop = 1 + simrt.Draw(20)
+		}
+		ev := wcBlockEv{idx: w.fed - lifeFed0, ext: ext, first: int64(w.F0) + int64(w.sent), drop: drop}
+		fedBefore := w.fed
+		w.feedBlock(n, func(b *dataBlock) {
+			b.externalTriggerRowcounts = ext
+			for i := range b.segments {
+				b.segments[i].droppedFrames = drop
+			}
+		})
+		if w.fed == fedBefore {
+			// the ground-truth stream is used up: nothing was fed
+			ev.idx = -1
+		}
+		return ev
+	}
+
+	// syncLoop returns true after every block fed in this run of the source has been completely processed
+	// (the producer has handed over the last one and an empty request has gone through the core loop: requests
+	// run between blocks), false when the run of the source has ended instead. A loop that does neither
+	// within a minute of simulated time is wedged.
+	syncLoop := func() bool {
+		t0 := time.Now()
+		wedged := func() {
+			simrt.Fail(check+".loop-alive", "wc:core-loop-neither-serves-nor-ends", "for 60 s of simulated time the core loop has neither taken a request nor ended (blocks fed in this run %d, handed over %d; fail-stop panics so far %d; I/O fault fired: %v); tasks %v",
+				w.fed-lifeFed0, src.run.delivered, src.failStops, ioFault(), simrt.AliveTaskInfo())
+		}
+		for src.run.delivered < w.fed-lifeFed0 {
+			time.Sleep(10 * time.Microsecond)
+			if !w.ss.Running() {
+				return false
+			}
+			if time.Since(t0) > 60*time.Second {
+				wedged()
+			}
+		}
+		done := make(chan struct{})
+		f := func() { close(done) }
+		for {
+			if !w.ss.Running() {
+				return false
+			}
+			select {
+			case w.sc.queuedRequests <- f:
+				<-done
+				return true
+			case <-time.After(5 * time.Millisecond):
+			}
+			if time.Since(t0) > 60*time.Second {
+				wedged()
+			}
+		}
+	}
+
+	// afterFailStop: the core loop has ended by its deliberate fail-stop panic while processing one of the
+	// blocks in evs (their events may or may not have reached the side files). A real process is dead at
+	// this point; its deferred clean-up has run. What it left on disk is judged: every record published while
+	// the state said active and unpaused is in its file, complete; the experiment-state file ends with STOP;
+	// the side files hold every event of the blocks processed before — except the file on the full disk.
+	afterFailStop := func(evs []wcBlockEv, lo time.Time) {
+		hi := time.Now()
+		processDead = true
+		alive = false
+		legit := fullFS != nil && fullFired() > 0 && (faultClass == "external_trigger" || faultClass == "data_drop")
+		env.Op("the core loop ends by its fail-stop panic (legitimate: %v)", legit)
+		if !legit {
+			// no failing side-file write explains it: a panic like any other
+			wcReportPanic(src.failValue, src.failStack)
+		}
+		simrt.Hit("fail-stop:side-file-write-error")
+		attributeRecords()
+		if cur != nil && !cur.stopped {
+			for _, ev := range evs {
+				if ev.idx >= 0 {
+					cur.optExt = append(cur.optExt, ev.ext)
+					cur.optDrops = append(cur.optDrops, [2]int64{ev.first, int64(ev.drop)})
+				}
+			}
+			cur.afterFailStop = true
+			simrt.Hit("fail-stop:files-on-disk-judged")
+			endSession(cur, lo, hi)
+		}
+	}
+
+	feed := func(nblocks int) {
+		for b := 0; b < nblocks && alive; b++ {
+			lo := time.Now()
+			ev := feedRaw(false)
+			if !syncLoop() {
+				if src.failStops == 0 {
+					simrt.Fail(check+".loop-alive", "wc:source-ended-unasked", "the run of the source ended although nobody stopped it and the hardware reported no error")
+				}
+				afterFailStop([]wcBlockEv{ev}, lo)
+				return
+			}
+			if ev.idx >= 0 {
+				attributeEvents(ev)
+			}
+		}
+		attributeRecords()
+	}
+
+	// sessionBookkeeping follows the *reported* state after something that may have changed it.
+	sessionBookkeeping := func(prev, now *WritingState, lo, hi time.Time) {
+		if now.Active && (!prev.Active || now.FilenamePattern != prev.FilenamePattern) {
+			dir := filepath.Dir(now.FilenamePattern)
+			if dirsSeen[dir] {
+				simrt.Fail("C06.new-directory", "wc:directory-reused", "START reports directory %s which an earlier START already used", dir)
+			}
+			dirsSeen[dir] = true
+			if ents, e := os.ReadDir(dir); e != nil {
+				simrt.Fail("C06.new-directory", "wc:directory-missing", "START reports directory %s which does not exist: %v", dir, e)
+			} else {
+				for _, en := range ents {
+					if !strings.Contains(en.Name(), "experiment_state") {
+						simrt.Fail("C06.new-directory", "wc:directory-not-new", "directory %s of a fresh START already holds %s", dir, en.Name())
+					}
+				}
+			}
+			if cur != nil && !cur.stopped {
+				// a START accepted while the previous session was still active: what that session's
+				// files hold is checked once everything has been stopped
+				superseded = append(superseded, cur)
+				simrt.Hit("start-accepted-while-active")
+			}
+			cur = &wcSession{dir: dir, pattern: now.FilenamePattern, types: [3]bool{now.WriteLJH22, now.WriteLJH3, now.WriteOFF}, expected: make([][3][]*DataRecord, nchan),
+				offEligible: append([]bool{}, hasProj...), projAtStart: append([]*wcProjSet{}, projNow...), offProj: make([][]*wcProjSet, nchan),
+				life: lives}
+			// I/O faults that happened before this request are not this session's (the request itself is)
+			cur.fullAtStart = fullFiredBefore
+			cur.createFailedBefore = createFailedBefore
+			sessions = append(sessions, cur)
+			if prev.Paused {
+				simrt.Hit("start-after-paused-run")
+			}
+			if lives > 1 {
+				simrt.Hit("writing-started-in-a-later-run-of-the-source")
+				if pausedAtSelfEnd {
+					simrt.Hit("writing-started-after-a-run-that-ended-by-itself-while-paused")
+				}
+			}
+		}
+		if !now.Active && prev.Active && cur != nil {
+			if now.Paused {
+				simrt.Fail("C06.stop-state", "wc:stop-leaves-paused", "after STOP the reported state is %s", stateString(now))
+			}
+			endSession(cur, lo, hi)
+		}
+	}
+
+	var request func(lifeOps bool)
+
+	// restartSource: after the run of the source has ended, a client may ask a few things of the stopped
+	// server (every one of them must be refused and change nothing), then the source is started again.
+	restartSource := func() {
+		for k := simrt.Draw(3); k > 0 && !processDead; k-- {
+			simrt.Hit("request-while-the-source-is-stopped")
+			request(false)
+		}
+		if simrt.Draw(2) == 0 {
+			// a client that does not know the source has ended asks for Stop first
+			var dummy string
+			var ok bool
+			simrt.Within(60*time.Second, check+".stop-returns", "wc:stop-hangs", func() { w.sc.Stop(&dummy, &ok) })
+		} else {
+			w.sc.handlePossibleStoppedSource()
+		}
+		prev := w.ss.ComputeWritingState()
+		startSource()
+		now := w.ss.ComputeWritingState()
+		env.Op("the source is started again (run %d); reported %s; projectors=%v", lives, stateString(now), hasProj)
+		simrt.Hit("source-restarted")
+		_ = prev
+		state = now
+	}
+
+	// endOfRun: the run of the source has ended (client Stop, or by itself). Bookkeeping follows the report.
+	endOfRun := func(what string, lo, hi time.Time) {
+		alive = false
+		prev := state
+		attributeRecords()
+		now := w.ss.ComputeWritingState()
+		env.Op("%s; reported %s", what, stateString(now))
+		if prev.Active && now.Active {
+			// nothing in C06/C20 says the end of a run is a STOP; what follows is judged as always
+			simrt.Hit("writing-reported-active-after-the-run-ended")
+		}
+		fullFiredBefore, createFailedBefore = fullFired(), createFailed()
+		sessionBookkeeping(prev, now, lo, hi)
+		state = now
+	}
+
+	// sourceStop: the client stops the SOURCE (no WriteControl STOP first) while 0-2 blocks with events are in
+	// flight: fed to the source, not necessarily seen by the core loop. Every block the source delivered to
+	// the loop before the run ended was delivered while writing was (still) active — nobody asked to stop
+	// writing before — so its events must be in the side files, its records in the record files.
+	sourceStop := func() {
+		var inflight []wcBlockEv
+		lo0 := time.Now()
+		nb := simrt.Draw(3)
+		if !state.Active {
+			nb = simrt.Draw(2)
+		}
+		for k := 0; k < nb; k++ {
+			inflight = append(inflight, feedRaw(true))
+		}
+		for k := simrt.Draw(40); k > 0; k-- {
+			simrt.Gosched()
+		}
+		if state.Active {
+			simrt.Hit("source-stopped-while-writing")
+			if state.Paused {
+				simrt.Hit("source-stopped-while-writing-paused")
+			}
+			if len(inflight) > 0 {
+				simrt.Hit("source-stopped-while-writing-with-blocks-in-flight")
+			}
+		}
+		pausedAtSelfEnd = false
+		lo := time.Now()
+		var dummy string
 		var ok bool
-		kind := simrt.Draw(14)
+		simrt.Within(60*time.Second, check+".stop-returns", "wc:stop-hangs", func() { w.sc.Stop(&dummy, &ok) })
+		hi := time.Now()
+		if src.failStops > 0 {
+			afterFailStop(inflight, lo0)
+			return
+		}
+		delivered := src.run.delivered
+		for _, ev := range inflight {
+			if ev.idx < 0 {
+				continue
+			}
+			if ev.idx < delivered {
+				attributeEvents(ev)
+				if state.Active && (len(ev.ext) > 0 || ev.drop > 0) {
+					simrt.Hit("events-of-a-block-in-flight-when-the-source-was-stopped")
+				}
+			} else {
+				simrt.Hit("block-in-flight-never-delivered-because-the-source-was-stopped")
+			}
+		}
+		endOfRun(fmt.Sprintf("source Stop with %d blocks in flight (%d delivered in this run)", len(inflight), delivered), lo, hi)
+	}
+
+	// selfEnd: the hardware reports an error, or the data channel closes: the run ends by itself.
+	selfEnd := func() {
+		if state.Active {
+			simrt.Hit("self-termination-while-writing")
+			if state.Paused {
+				simrt.Hit("self-termination-while-writing-paused")
+			}
+		}
+		pausedAtSelfEnd = state.Active && state.Paused
+		lo := time.Now()
+		what := "the source delivers an error block"
+		if simrt.Draw(2) == 0 {
+			b := new(dataBlock)
+			b.err = fmt.Errorf("scripted hardware error")
+			w.ss.feed <- b
+		} else {
+			w.ss.feed <- nil
+			what = "the source closes its block channel"
+		}
+		simrt.Fault("self-termination")
+		for w.ss.Running() {
+			if time.Since(lo) > 60*time.Second {
+				simrt.Fail(check+".loop-alive", "wc:self-termination-ignored", "the source is still running 60 s after %s; tasks %v", what, simrt.AliveTaskInfo())
+			}
+			time.Sleep(200 * time.Microsecond)
+		}
+		if src.failStops > 0 {
+			afterFailStop(nil, lo)
+			return
+		}
+		endOfRun(what, lo, time.Now())
+	}
+
+	request = func(lifeOps bool) {
+		var ok bool
+		kind := simrt.Draw(16)
+		if kind >= 14 && (!lifeOps || lives >= 4) {
+			kind = simrt.Draw(14)
+		}
+		if kind == 15 && !env.Faulted() {
+			kind = 14 // a failing source is a fault; a client stopping the source is not
+		}
 		prev := state
 		var req string
 		var err error
+		fullFiredBefore, createFailedBefore = fullFired(), createFailed()
 		lo := time.Now()
 		switch {
 		case kind < 3: // START with a subset of types
@@ -312,6 +846,9 @@ func wcBody(env *simrt.Env, check string) {
 			cfg.WriteLJH22, cfg.WriteLJH3, cfg.WriteOFF = m&1 != 0, m&2 != 0, m&4 != 0
 			req = fmt.Sprintf("START ljh22=%v ljh3=%v off=%v", cfg.WriteLJH22, cfg.WriteLJH3, cfg.WriteOFF)
 			err = w.sc.WriteControl(cfg, &ok)
+			if createFailed() && !createFailedBefore {
+				simrt.Hit("start-whose-experiment-state-file-cannot-be-created")
+			}
 		case kind < 5:
 			req = "STOP"
 			err = w.sc.WriteControl(&WriteControlConfig{Request: "STOP"}, &ok)
@@ -366,7 +903,7 @@ func wcBody(env *simrt.Env, check string) {
 					simrt.Hit("projectors-requested-before-the-first-OFF-record")
 				}
 			}
-		default:
+		case kind < 14:
 			// the operator deletes or renames the directory of an earlier, stopped writing session
 			var cands []*wcSession
 			for _, s := range sessions {
@@ -404,12 +941,29 @@ func wcBody(env *simrt.Env, check string) {
 					simrt.Hit("stopped-run-directory-removed-while-writing")
 				}
 			}
+		case kind == 14:
+			sourceStop()
+			if !processDead {
+				restartSource()
+			}
+			return
+		default:
+			selfEnd()
+			if !processDead {
+				restartSource()
+			}
+			return
 		}
 		hi := time.Now()
 		w.drain()
 		now := w.ss.ComputeWritingState()
-		env.Op("%s -> %v; reported %s", req, err, stateString(now))
-		if err != nil && !diskFull() {
+		errText := "<nil>"
+		if err != nil {
+			// (the sandbox path differs from process to process: keep it out of the run's identity)
+			errText = strings.ReplaceAll(err.Error(), env.Dir, "<sandbox>")
+		}
+		env.Op("%s -> %s; reported %s", req, errText, stateString(now))
+		if err != nil && !ioFault() {
 			simrt.Hit("request-rejected")
 			if !sameState(prev, now) {
 				simrt.Fail("C06.rejected-request", "wc:rejected-request-changed-state", "request %s was rejected (%v) but the reported state changed from %s to %s", req, err, stateString(prev), stateString(now))
@@ -418,11 +972,14 @@ func wcBody(env *simrt.Env, check string) {
 			return
 		}
 		if err != nil {
-			// Disk-full runs: a request that was carried out may report the I/O failure of a side file.
+			// Runs with an I/O fault: a request that was carried out may report the I/O failure of a side file.
 			// What it did is read from the reported state; report and behaviour must still agree.
 			simrt.Hit("request-error-under-full-disk")
 			if !sameState(prev, now) {
 				simrt.Hit("request-error-under-full-disk-with-state-change")
+				if strings.HasPrefix(req, "START") && createFailed() && !createFailedBefore {
+					simrt.Hit("start-answered-with-an-error-but-reported-active")
+				}
 			}
 		}
 		// the WRITING status message, when one was sent, equals the reported state
@@ -433,43 +990,7 @@ func wcBody(env *simrt.Env, check string) {
 				}
 			}
 		}
-		// session bookkeeping follows the *reported* state
-		if now.Active && (!prev.Active || now.FilenamePattern != prev.FilenamePattern) {
-			dir := filepath.Dir(now.FilenamePattern)
-			if dirsSeen[dir] {
-				simrt.Fail("C06.new-directory", "wc:directory-reused", "START reports directory %s which an earlier START already used", dir)
-			}
-			dirsSeen[dir] = true
-			if ents, e := os.ReadDir(dir); e != nil {
-				simrt.Fail("C06.new-directory", "wc:directory-missing", "START reports directory %s which does not exist: %v", dir, e)
-			} else {
-				for _, en := range ents {
-					if !strings.Contains(en.Name(), "experiment_state") {
-						simrt.Fail("C06.new-directory", "wc:directory-not-new", "directory %s of a fresh START already holds %s", dir, en.Name())
-					}
-				}
-			}
-			if cur != nil && !cur.stopped {
-				// a START accepted while the previous session was still active: what that session's
-				// files hold is checked once everything has been stopped
-				superseded = append(superseded, cur)
-				simrt.Hit("start-accepted-while-active")
-			}
-			cur = &wcSession{dir: dir, pattern: now.FilenamePattern, types: [3]bool{now.WriteLJH22, now.WriteLJH3, now.WriteOFF}, expected: make([][3][]*DataRecord, nchan),
-				offEligible: append([]bool{}, hasProj...), projAtStart: append([]*wcProjSet{}, projNow...), offProj: make([][]*wcProjSet, nchan)}
-			sessions = append(sessions, cur)
-			if prev.Paused {
-				simrt.Hit("start-after-paused-run")
-			}
-		}
-		if !now.Active && prev.Active && cur != nil {
-			cur.stopped = true
-			cur.stopLo, cur.stopHi = lo, hi
-			if now.Paused {
-				simrt.Fail("C06.stop-state", "wc:stop-leaves-paused", "after STOP the reported state is %s", stateString(now))
-			}
-			checkSessionFiles(w, check, cur)
-		}
+		sessionBookkeeping(prev, now, lo, hi)
 		if strings.HasPrefix(req, "PAUSE") && !prev.Active {
 			simrt.Hit("pause-before-start")
 		}
@@ -477,25 +998,35 @@ func wcBody(env *simrt.Env, check string) {
 	}
 
 	nops := 6 + simrt.Draw(16)
-	for i := 0; i < nops; i++ {
+	for i := 0; i < nops && !processDead; i++ {
 		if simrt.Draw(3) > 0 {
 			feed(1 + simrt.Draw(3))
 		}
-		request()
+		if processDead {
+			break
+		}
+		request(true)
 		if simrt.Draw(6) == 0 {
 			time.Sleep([]time.Duration{1100 * time.Millisecond, 10500 * time.Millisecond}[simrt.Draw(2)])
 			simrt.Hit("flush-tickers-fired")
 		}
 	}
-	feed(1)
-	if state.Active {
+	if !processDead {
+		feed(1)
+	}
+	if !processDead && state.Active && simrt.Draw(4) == 0 {
+		// the history ends with the client stopping the source while writing is on
+		sourceStop()
+	}
+	if !processDead && alive && state.Active {
 		var ok bool
+		fullFiredBefore, createFailedBefore = fullFired(), createFailed()
 		lo := time.Now()
 		err := w.sc.WriteControl(&WriteControlConfig{Request: "STOP"}, &ok)
 		w.drain()
 		now := w.ss.ComputeWritingState()
-		env.Op("final STOP -> %v; reported %s", err, stateString(now))
-		if err != nil && !diskFull() {
+		env.Op("final STOP -> %s; reported %s", strings.ReplaceAll(fmt.Sprint(err), env.Dir, "<sandbox>"), stateString(now))
+		if err != nil && !ioFault() {
 			simrt.Fail("C06.stop-state", "wc:stop-refused-while-active", "STOP was refused (%v) while the reported state was %s", err, stateString(state))
 		}
 		if now.Active {
@@ -504,19 +1035,23 @@ func wcBody(env *simrt.Env, check string) {
 			state = now
 			feed(1)
 		}
-		if cur != nil && !cur.stopped {
-			cur.stopped = true
-			cur.stopLo, cur.stopHi = lo, time.Now()
-			checkSessionFiles(w, check, cur)
+		if !processDead && cur != nil && !cur.stopped {
+			endSession(cur, lo, time.Now())
 		}
 	}
 	if check != "C20" {
 		for _, s := range superseded {
 			// records emitted after the newer START belong to the newer session's files only
+			markFaults(s)
 			checkSessionFiles(w, check, s)
 		}
 	}
-	w.stop()
+	if alive || processDead {
+		// (after a fail-stop the server object still believes the source runs: a Stop must return all the same)
+		var dummy string
+		var ok bool
+		simrt.Within(60*time.Second, check+".stop-returns", "wc:stop-hangs", func() { w.sc.Stop(&dummy, &ok) })
+	}
 	nrec := 0
 	for _, s := range sessions {
 		for c := range s.expected {
@@ -525,7 +1060,7 @@ func wcBody(env *simrt.Env, check string) {
 			}
 		}
 	}
-	env.Sample(map[string]interface{}{"channels": nchan, "sessions": len(sessions), "requests": nops, "records_expected_in_files": nrec})
+	env.Sample(map[string]interface{}{"channels": nchan, "sessions": len(sessions), "requests": nops, "records_expected_in_files": nrec, "runs_of_the_source": lives})
 }
 
 // checkSessionFiles runs after a STOP: all files of the session are closed and complete.
@@ -533,10 +1068,17 @@ func checkSessionFiles(w *pipeWorld, check string, s *wcSession) {
 	if s.gone {
 		return
 	}
+	// the harness's own look at the files is not subject to the run's I/O fault plan (and does not use it up)
+	if sim := simrt.Current(); sim != nil && sim.FS != nil {
+		saved := sim.FS
+		sim.FS = nil
+		defer func() { sim.FS = saved }()
+	}
 	// (in disk-full runs the affected side file's handle is on /dev/full, not under the run directory: every
 	// other file of the session, side files included, must be closed by a STOP even if it reported the failure)
+	// (after a fail-stop the process is dead and its descriptors with it: only the content is judged)
 	fds := openFDsUnder(s.dir)
-	if len(fds) > 0 {
+	if len(fds) > 0 && !s.afterFailStop {
 		rule, sig := "C06.stop-closes-files", "wc:files-open-after-stop"
 		if check == "C20" {
 			rule, sig = "C20.closed-after-stop", "sidefiles:open-after-stop"
@@ -550,19 +1092,23 @@ func checkSessionFiles(w *pipeWorld, check string, s *wcSession) {
 			for t, ext := range []string{"ljh", "ljh3", "off"} {
 				path := fmt.Sprintf(s.pattern, name, ext)
 				want := s.expected[c][t]
+				how := "after STOP"
+				if s.afterFailStop {
+					how = "after the core loop's fail-stop (its deferred clean-up has run)"
+				}
 				b, err := os.ReadFile(path)
 				if err != nil {
 					if len(want) == 0 {
 						continue
 					}
-					simrt.Fail(check+".records-stored", "wc:file-missing:"+ext, "channel %d: the state said active/unpaused with %s enabled while %d records were emitted, but %s does not exist", c, ext, len(want), filepath.Base(path))
+					simrt.Fail(check+".records-stored", "wc:file-missing:"+ext, "channel %d: the state said active/unpaused with %s enabled while %d records were emitted, but %s does not exist %s", c, ext, len(want), filepath.Base(path), how)
 				}
 				frames, perr := framesInFile(t, b)
 				if perr != nil {
-					simrt.Fail(check+".parse", "wc:unparsable:"+ext, "channel %d: %s does not parse after STOP: %v", c, filepath.Base(path), perr)
+					simrt.Fail(check+".parse", "wc:unparsable:"+ext, "channel %d: %s does not parse %s: %v (%d records were emitted while the reported state was active and unpaused)", c, filepath.Base(path), how, perr, len(want))
 				}
 				if len(frames) != len(want) {
-					simrt.Fail(check+".records-stored", "wc:record-count:"+ext, "channel %d %s: the file holds %d records, %d were emitted while the reported state was active, unpaused and %s-enabled (session types %v)", c, ext, len(frames), len(want), ext, s.types)
+					simrt.Fail(check+".records-stored", "wc:record-count:"+ext, "channel %d %s: %s the file holds %d records, %d were emitted while the reported state was active, unpaused and %s-enabled (session types %v)", c, ext, how, len(frames), len(want), ext, s.types)
 				}
 				for i, r := range want {
 					wantF := int64(r.trigFrame)
@@ -692,13 +1238,123 @@ func checkFileAgainstRecords(w *pipeWorld, c, t int, path string, recs []*DataRe
 	}
 }
 
-// checkSideFiles is C20's oracle for one finished writing session.
+// checkSideFiles is C20's oracle for one finished writing session. A side file that the injected I/O
+// fault touched in this session (s.skipES/ET/DD) is not judged; after a fail-stop the events of the
+// block(s) being processed when the failure surfaced are optional (whole blocks, in order).
 func checkSideFiles(w *pipeWorld, s *wcSession) {
-	// experiment state file: header, START, one line per accepted label, STOP last
+	how := "after STOP"
+	if s.afterFailStop {
+		how = "after the core loop's fail-stop (its deferred clean-up has run)"
+	}
+	if !s.skipES {
+		checkExperimentStateFile(s, how)
+	} else {
+		simrt.Hit("experiment-state-file-not-judged:io-fault")
+	}
+	// external trigger file
+	etPath := fmt.Sprintf(s.pattern, "external_trigger", "bin")
+	b, err := os.ReadFile(etPath)
+	full := append([]int64{}, s.extTrig...)
+	allowed := []int{len(full)}
+	for _, o := range s.optExt {
+		full = append(full, o...)
+		if len(o) > 0 {
+			allowed = append(allowed, len(full))
+		}
+	}
+	isAllowed := func(n int) bool {
+		for _, a := range allowed {
+			if a == n {
+				return true
+			}
+		}
+		return false
+	}
+	switch {
+	case s.skipET:
+		simrt.Hit("ext-trigger-file-not-judged:io-fault")
+	case err != nil:
+		if len(s.extTrig) > 0 {
+			simrt.Fail("C20.external-trigger", "sidefiles:ext-trigger-missing", "%d external triggers were delivered while active but the file is missing %s: %v", len(s.extTrig), how, err)
+		}
+	default:
+		nl := bytes.IndexByte(b, '\n')
+		if len(full) == 0 {
+			if nl < 0 || len(b) != nl+1 {
+				simrt.Fail("C20.external-trigger", "sidefiles:ext-trigger-spurious", "no external trigger was delivered while active but the file holds %d bytes", len(b))
+			}
+			break
+		}
+		if nl < 0 || b[0] != '#' {
+			if len(s.extTrig) == 0 && len(b) == 0 {
+				break // (only optional events: the file was created and the process died)
+			}
+			simrt.Fail("C20.external-trigger", "sidefiles:ext-trigger-header", "external-trigger file has no header line")
+		}
+		data := b[nl+1:]
+		if len(data)%8 != 0 || !isAllowed(len(data)/8) {
+			simrt.Fail("C20.external-trigger", "sidefiles:ext-trigger-count", "%s the external-trigger file holds %d bytes of counts (%d values), %d counts were delivered while active (acceptable numbers of values: %v)", how, len(data), len(data)/8, len(s.extTrig), allowed)
+		}
+		for i := 0; i < len(data)/8; i++ {
+			if got := int64(binary.LittleEndian.Uint64(data[8*i:])); got != full[i] {
+				simrt.Fail("C20.external-trigger", "sidefiles:ext-trigger-value", "external-trigger count %d in the file is %d, the source delivered %d", i, got, full[i])
+			}
+		}
+		simrt.Hit("ext-trigger-file-checked")
+	}
+	// data drop file
+	ddPath := fmt.Sprintf(s.pattern, "data_drop", "txt")
+	b, err = os.ReadFile(ddPath)
+	fullD := append([][2]int64{}, s.drops...)
+	allowedD := []int{len(fullD)}
+	for _, o := range s.optDrops {
+		if o[1] > 0 {
+			fullD = append(fullD, o)
+			allowedD = append(allowedD, len(fullD))
+		}
+	}
+	switch {
+	case s.skipDD:
+		simrt.Hit("data-drop-file-not-judged:io-fault")
+	case err != nil:
+		if len(s.drops) > 0 {
+			simrt.Fail("C20.data-drop", "sidefiles:data-drop-missing", "%d blocks reported dropped frames while active but the file is missing %s: %v", len(s.drops), how, err)
+		}
+	case len(fullD) == 0:
+		if strings.Count(string(b), "\n") > 1 {
+			simrt.Fail("C20.data-drop", "sidefiles:data-drop-spurious", "no block reported dropped frames while active but the data-drop file holds %q", string(b))
+		}
+	default:
+		lines := strings.Split(strings.TrimSuffix(string(b), "\n"), "\n")
+		ok := false
+		for _, a := range allowedD {
+			if len(lines) == a+1 {
+				ok = true
+			}
+		}
+		if len(s.drops) == 0 && len(b) == 0 {
+			break // (only optional events: the file was created and the process died)
+		}
+		if !ok || !strings.HasPrefix(lines[0], "#") {
+			simrt.Fail("C20.data-drop", "sidefiles:data-drop-lines", "%s the data-drop file has %d lines, want a header + %d drop lines (acceptable numbers of drop lines: %v): %q", how, len(lines), len(s.drops), allowedD, lines)
+		}
+		for i := 0; i+1 < len(lines); i++ {
+			d := fullD[i]
+			want := fmt.Sprintf("%12d %8d", d[0], d[1])
+			if lines[1+i] != want {
+				simrt.Fail("C20.data-drop", "sidefiles:data-drop-line", "data-drop line %d is %q, want %q", i, lines[1+i], want)
+			}
+		}
+		simrt.Hit("data-drop-file-checked")
+	}
+}
+
+// checkExperimentStateFile: header, START, one line per accepted label, STOP last.
+func checkExperimentStateFile(s *wcSession, how string) {
 	esPath := fmt.Sprintf(s.pattern, "experiment_state", "txt")
 	b, err := os.ReadFile(esPath)
 	if err != nil {
-		simrt.Fail("C20.experiment-state", "sidefiles:experiment-state-missing", "experiment-state file missing after STOP: %v", err)
+		simrt.Fail("C20.experiment-state", "sidefiles:experiment-state-missing", "experiment-state file missing %s: %v", how, err)
 	}
 	lines := strings.Split(strings.TrimSuffix(string(b), "\n"), "\n")
 	if len(lines) < 1 || !strings.HasPrefix(lines[0], "#") {
@@ -707,7 +1363,7 @@ func checkSideFiles(w *pipeWorld, s *wcSession) {
 	body := lines[1:]
 	wantN := len(s.labels) + 2
 	if len(body) != wantN {
-		simrt.Fail("C20.experiment-state", "sidefiles:experiment-state-lines", "experiment-state file has %d lines after the header, want START + %d accepted labels + STOP: %q", len(body), len(s.labels), body)
+		simrt.Fail("C20.experiment-state", "sidefiles:experiment-state-lines", "%s the experiment-state file has %d lines after the header, want START + %d accepted labels + STOP: %q", how, len(body), len(s.labels), body)
 	}
 	parse := func(line string) (int64, string) {
 		k := strings.Index(line, ", ")
@@ -724,64 +1380,12 @@ func checkSideFiles(w *pipeWorld, s *wcSession) {
 		simrt.Fail("C20.experiment-state", "sidefiles:experiment-state-start", "first state line is %q, want START", body[0])
 	}
 	if ns, l := parse(body[len(body)-1]); l != "STOP" || ns < s.stopLo.UnixNano() || ns > s.stopHi.UnixNano() {
-		simrt.Fail("C20.experiment-state", "sidefiles:experiment-state-stop", "last state line is %q, want STOP stamped within the STOP request [%d,%d]", body[len(body)-1], s.stopLo.UnixNano(), s.stopHi.UnixNano())
+		simrt.Fail("C20.experiment-state", "sidefiles:experiment-state-stop", "%s the last state line is %q, want STOP stamped within the stopping operation [%d,%d]", how, body[len(body)-1], s.stopLo.UnixNano(), s.stopHi.UnixNano())
 	}
 	for i, lb := range s.labels {
 		ns, l := parse(body[1+i])
 		if l != lb.label || ns < lb.lo.UnixNano() || ns > lb.hi.UnixNano() {
 			simrt.Fail("C20.experiment-state", "sidefiles:experiment-state-label", "state line %d is %q, want label %q stamped in [%d,%d]", i+1, body[1+i], lb.label, lb.lo.UnixNano(), lb.hi.UnixNano())
 		}
-	}
-	// external trigger file
-	etPath := fmt.Sprintf(s.pattern, "external_trigger", "bin")
-	b, err = os.ReadFile(etPath)
-	if len(s.extTrig) == 0 {
-		if err == nil {
-			nl := bytes.IndexByte(b, '\n')
-			if nl < 0 || len(b) != nl+1 {
-				simrt.Fail("C20.external-trigger", "sidefiles:ext-trigger-spurious", "no external trigger was delivered while active but the file holds %d bytes", len(b))
-			}
-		}
-	} else {
-		if err != nil {
-			simrt.Fail("C20.external-trigger", "sidefiles:ext-trigger-missing", "%d external triggers were delivered while active but the file is missing: %v", len(s.extTrig), err)
-		}
-		nl := bytes.IndexByte(b, '\n')
-		if nl < 0 || b[0] != '#' {
-			simrt.Fail("C20.external-trigger", "sidefiles:ext-trigger-header", "external-trigger file has no header line")
-		}
-		data := b[nl+1:]
-		if len(data) != 8*len(s.extTrig) {
-			simrt.Fail("C20.external-trigger", "sidefiles:ext-trigger-count", "external-trigger file holds %d bytes of counts (%d values), %d counts were delivered while active", len(data), len(data)/8, len(s.extTrig))
-		}
-		for i, v := range s.extTrig {
-			if got := int64(binary.LittleEndian.Uint64(data[8*i:])); got != v {
-				simrt.Fail("C20.external-trigger", "sidefiles:ext-trigger-value", "external-trigger count %d in the file is %d, the source delivered %d", i, got, v)
-			}
-		}
-		simrt.Hit("ext-trigger-file-checked")
-	}
-	// data drop file
-	ddPath := fmt.Sprintf(s.pattern, "data_drop", "txt")
-	b, err = os.ReadFile(ddPath)
-	if len(s.drops) == 0 {
-		if err == nil && strings.Count(string(b), "\n") > 1 {
-			simrt.Fail("C20.data-drop", "sidefiles:data-drop-spurious", "no block reported dropped frames while active but the data-drop file holds %q", string(b))
-		}
-	} else {
-		if err != nil {
-			simrt.Fail("C20.data-drop", "sidefiles:data-drop-missing", "%d blocks reported dropped frames while active but the file is missing: %v", len(s.drops), err)
-		}
-		lines := strings.Split(strings.TrimSuffix(string(b), "\n"), "\n")
-		if len(lines) != len(s.drops)+1 || !strings.HasPrefix(lines[0], "#") {
-			simrt.Fail("C20.data-drop", "sidefiles:data-drop-lines", "data-drop file has %d lines, want a header + %d drop lines: %q", len(lines), len(s.drops), lines)
-		}
-		for i, d := range s.drops {
-			want := fmt.Sprintf("%12d %8d", d[0], d[1])
-			if lines[1+i] != want {
-				simrt.Fail("C20.data-drop", "sidefiles:data-drop-line", "data-drop line %d is %q, want %q", i, lines[1+i], want)
-			}
-		}
-		simrt.Hit("data-drop-file-checked")
 	}
 }
